@@ -1,5 +1,5 @@
 (* Entry points of the executable model used by the correspondence check (extracted). *)
-From RP Require Import Base Stream Target Socks Http Frames Frag MiluSyntax MiluParser MiluDoc MiluEval Dispatch MiluSound MiluWf.
+From RP Require Import Base Stream Target Socks Http Frames Frag MiluSyntax MiluParser MiluDoc MiluEval Dispatch MiluSound MiluWf Reload Lb.
 From RP.Gen Require Gen_ladder.
 
 Definition HFUEL : nat := 4000.   (* header lines per HTTP head in generated cases are far fewer *)
@@ -44,3 +44,6 @@ Definition x_cidr_net_ok := cidr_net_ok.
 Definition x_dispatch regex cidr := dispatch x_milu_parse regex cidr 4000.
 
 Definition x_wf_lfb := wf_lfb.
+
+Definition x_rrun regex cidr rq0 conns := rrun x_milu_parse regex cidr 4000 rq0 conns (mk_rstate [] []).
+Definition x_member_at := @member_at bytes.
